@@ -51,6 +51,8 @@ def run(s):
     K.item_grid(s, 3, pretties=(False,), kmax=2, full=False, inters=(False,), item_names=K.LONG_NAMES)
     K.item_grid(s, 3, pretties=(False,), full=False, inters=(False,))
     K.many_unresolvable(s)
+    K.story_grid(s, 4, layouts=('before',), pretties=(False,), kmax=2, full=False, names=K.HOSTILE_NAMES_C)
+    K.item_grid(s, 4, pretties=(False,), kmax=2, full=False, inters=(False,), item_names=K.HOSTILE_NAMES_C)
     collection_reports(s, 60 if q else 3000)
     repeated_id_deletes(s)
     K.idless_cases(s)
